@@ -83,13 +83,14 @@ def _analyse(args):
     if base is None:
         base = Program(root)
         _analyse.base, _analyse.base_root = base, root
+    ctx = None
     try:
         prog = Program(root, overlay=overlay, base=base)
         ctx = report.Ctx(prop, "quick", prog)
         mod.run(ctx)
         return {"keys": [f.key for f in ctx.findings], "error": None}
     except report.AnalysisError as e:
-        return {"keys": [], "error": str(e)}
+        return {"keys": [f.key for f in ctx.findings] if ctx else [], "error": str(e)}
     except Exception as e:  # noqa
         return {"keys": [], "error": f"internal {type(e).__name__}: {e}"}
 
